@@ -26,7 +26,11 @@ def check(ctx, rep, tier):
                  "the after-rule is its mirror image; exactly one side is set on every path")
     rep.describe("ends-are-operands", "the most specific written field of the start comes "
                  "from the left operand and that of the end from the right operand")
-    interval_order(ctx, rep, eng, "range-order", strict=True, max_span=None)
+    # '<date> for <duration>' builds its end by calendar arithmetic (C08); a zero amount
+    # legitimately gives a zero-length interval, so it is not held to strict order here
+    range_rules = {r.name for r in ctx.rb.rules
+                   if not any(p.kind == "dim" and p.value == "Duration" for p in r.pats)} | {"latent"}
+    interval_order(ctx, rep, eng, "range-order", strict=True, max_span=None, only_rules=range_rules)
     _span_limit(ctx, rep, eng)
     _half_open(ctx, rep, eng)
     _operands(ctx, rep, eng)
